@@ -294,21 +294,93 @@ def activation_rules(run, db):
         d = diff(fv, 'x', R)
         run.check(d == bv, 'C06.activation', fb.qual, 'derivative', 'd/dx %s.forward(x) == %s.backprop(x) as closed forms' % (cname, cname),
                   '%s.backprop(x) = %s but d/dx forward(x) = %s' % (cname, bv.key(), d.key()), fb.loc())
-    # Gumbel: forward divides by tau -> companion divides the softmax companion by tau
+    # Gumbel / DiscreteEncoder: decided by interpreting the methods with the inner node (softmax / estimator) as a stub whose
+    # forward/backprop are uninterpreted functions: what is handed to the stub and what is done to its result
+    from ..core.interp import Value
+
+    class Stub(Value):
+        def __init__(self, name):
+            self.name = name
+
+        def __repr__(self):
+            return 'Stub(%s)' % self.name
+
+    def stub_interp():
+        it2, dom2 = norm_interp(db)
+        calls = []
+        om, oe, osub, oga = dom2.method, dom2.call_ext, dom2.subscript, dom2.getattr
+
+        def method(v, name, args, kwargs, node):
+            if isinstance(v, Stub):
+                calls.append((v.name, name, list(args)))
+                if v.name == 'rng':
+                    return dom2.sym('u')
+                if all(dom2.rat(a) is not None for a in args):
+                    return dom2.func_atom('%s_%s' % (v.name, name), list(args))
+                return Unknown('stub argument outside NORM')
+            if name == 'sum' and dom2.rat(v) is not None:
+                return dom2.func_atom('sum_levels', [v])
+            return om(v, name, args, kwargs, node)
+
+        def call_ext(dotted, args, kwargs, node):
+            if dotted == 'numpy.broadcast_to' and args and dom2.rat(args[0]) is not None:
+                return args[0]           # broadcasting repeats values: elementwise algebra is unchanged
+            return oe(dotted, args, kwargs, node)
+
+        def subscript(v, idx, node):
+            items = idx.items if isinstance(idx, Tup) else [idx]
+            if dom2.rat(v) is not None and all((isinstance(x, Const) and x.v is None) or type(x).__name__ == 'Slice' for x in items):
+                return v                 # x[:, None] / x[None, :] only add broadcast axes
+            return osub(v, idx, node)
+
+        def getattr_(v, name, node):
+            if name == 'shape' and dom2.rat(v) is not None:
+                return dom2.sym('shape_of_' + dom2.rat(v).key())
+            return oga(v, name, node)
+        dom2.method, dom2.call_ext, dom2.subscript, dom2.getattr = method, call_ext, subscript, getattr_
+        return it2, dom2, calls
+    ciG = db.cls(A + 'GumbelSoftmax')
+    it2, dom2, calls = stub_interp()
+
+    def mkG():
+        o = Obj(ciG)
+        o.attrs.update({'tau': dom2.sym('tau'), 'eps': dom2.sym('eps'), 'rng': Stub('rng'), 'smax': Stub('smax')})
+        return o
     fb = db.func(A + 'GumbelSoftmax.backprop')
-    rets = [n for n in walk_no_nested(fb.node) if isinstance(n, ast.Return)]
-    ok = len(rets) == 1 and isinstance(rets[0].value, ast.BinOp) and isinstance(rets[0].value.op, ast.Div) and ast.unparse(rets[0].value.right) == 'self.tau' \
-        and any(isinstance(n, ast.Call) and ast.unparse(n.func) == 'self.smax.backprop' for n in walk_no_nested(fb.node))
-    run.check(ok, 'C06.activation', fb.qual, 'temperature', 'GumbelSoftmax.backprop == smax.backprop(g)/tau', 'GumbelSoftmax.backprop is not smax.backprop(g)/tau', fb.loc())
+    rb = returns(it2.run(fb, kwargs=lambda: {fb.params[1]: dom2.sym('g')}, self_obj=mkG), fb)
+    R2 = dom2.R
+    wantb = Rat(R2.func('smax_backprop', [Rat(R2.atom('g'))])) / Rat(R2.atom('tau'))
+    okb = len(rb) == 1 and dom2.rat(rb[0].value) is not None and dom2.rat(rb[0].value) == wantb
+    run.check(okb, 'C06.activation', fb.qual, 'temperature', 'GumbelSoftmax.backprop == smax.backprop(g)/tau', 'GumbelSoftmax.backprop is %s, not smax.backprop(g)/tau'
+              % (dom2.rat(rb[0].value).key() if rb and dom2.rat(rb[0].value) is not None else '?'), fb.loc())
     ff = db.func(A + 'GumbelSoftmax.forward')
-    ok = any(isinstance(n, ast.BinOp) and isinstance(n.op, ast.Div) and ast.unparse(n.right) == 'self.tau' for n in walk_no_nested(ff.node))
-    run.check(ok, 'C06.activation', ff.qual, 'temperature', 'forward divides by tau', 'forward no longer divides by tau (companion does)', ff.loc())
-    # DiscreteEncoder: forward sum_k samples*levels ; companion broadcasts g over levels and multiplies by levels
+    del calls[:]
+    it2.run(ff, kwargs=lambda: {'x': dom2.sym('x')}, self_obj=mkG)
+    fwd_args = [a[0] for nm, meth, a in calls if nm == 'smax' and meth == 'forward' and a]
+    okf = bool(fwd_args) and all(dom2.rat(a) is not None and (dom2.rat(a) * Rat(R2.atom('tau')) - Rat(R2.atom('x'))).atoms().isdisjoint({'tau', 'x'}) for a in fwd_args)
+    run.check(okf, 'C06.activation', ff.qual, 'temperature', 'forward hands (x + noise)/tau to the softmax (so d/dx of its argument is 1/tau)',
+              'GumbelSoftmax.forward hands %s to the softmax: its derivative with respect to x is not the 1/tau the companion applies' % [dom2.rat(a).key() if dom2.rat(a) is not None else repr(a) for a in fwd_args], ff.loc())
+    # DiscreteEncoder: forward sum_k est.forward(x) * levels ; companion = est.backprop(broadcast(g) * levels)
+    ciD = db.cls(A + 'DiscreteEncoder')
+    it3, dom3, calls3 = stub_interp()
+
+    def mkD():
+        o = Obj(ciD)
+        o.attrs.update({'est': Stub('est'), 'levels': dom3.sym('levels'), 'tmpshape': dom3.sym('tmpshape')})
+        return o
     fb = db.func(A + 'DiscreteEncoder.backprop')
-    src = ast.unparse(fb.node)
-    ok = 'expanded_levels' in src and 'self.est.backprop' in src and 'broadcast_to' in src
-    mul = [n for n in walk_no_nested(fb.node) if isinstance(n, ast.BinOp) and isinstance(n.op, ast.Mult) and 'expanded_levels' in ast.unparse(n)]
-    run.check(ok and bool(mul), 'C06.activation', fb.qual, 'level contraction', 'companion = est.backprop(broadcast(g) * levels)', 'DiscreteEncoder.backprop is not est.backprop(broadcast(g)*levels)', fb.loc())
+    rb = returns(it3.run(fb, kwargs=lambda: {fb.params[1]: dom3.sym('g')}, self_obj=mkD), fb)
+    R3 = dom3.R
+    wantd = Rat(R3.func('est_backprop', [Rat(R3.atom('g')) * Rat(R3.atom('levels'))]))
+    okd = len(rb) == 1 and dom3.rat(rb[0].value) is not None and dom3.rat(rb[0].value) == wantd
+    run.check(okd, 'C06.activation', fb.qual, 'level contraction', 'companion = est.backprop(broadcast(g) * levels)',
+              'DiscreteEncoder.backprop is %s, not est.backprop(broadcast(g)*levels)' % (dom3.rat(rb[0].value).key() if rb and dom3.rat(rb[0].value) is not None else '?'), fb.loc())
+    ffd = db.func(A + 'DiscreteEncoder.forward')
+    rf = returns(it3.run(ffd, kwargs=lambda: {'x': dom3.sym('x')}, self_obj=mkD), ffd)
+    wantf = Rat(R3.func('sum_levels', [Rat(R3.func('est_forward', [Rat(R3.atom('x'))])) * Rat(R3.atom('levels'))]))
+    okdf = len(rf) == 1 and dom3.rat(rf[0].value) is not None and dom3.rat(rf[0].value) == wantf
+    run.check(okdf, 'C06.activation', ffd.qual, 'level contraction', 'forward = sum over levels of est.forward(x) * levels',
+              'DiscreteEncoder.forward is %s' % (dom3.rat(rf[0].value).key() if rf and dom3.rat(rf[0].value) is not None else '?'), ffd.loc())
 
 
 def cost_rules(run, db):
@@ -357,19 +429,37 @@ def cost_rules(run, db):
                       '%s: grad[%d] = %s but d cost/d %s[%d] = %s' % (name, i, g.key(), wrt, i, d.key()), f.loc())
 
 
-def sum_rules(run, db):
-    f = db.func('prysm.polynomials.sum_of_2d_modes')
-    calls = [n for n in walk_no_nested(f.node) if isinstance(n, ast.Call) and ast.unparse(n.func).endswith('tensordot')]
-    ok = len(calls) == 1 and [ast.unparse(a) for a in calls[0].args[:2]] == ['modes', 'weights'] and \
-        any(k.arg == 'axes' and ast.unparse(k.value).replace(' ', '') in ('(0,0)', '([0],[0])') for k in calls[0].keywords)
-    run.check(ok, 'C06.sum', f.qual, 'contraction', 'forward contracts the mode axis of modes with weights', 'sum_of_2d_modes does not contract axis 0 of modes with axis 0 of weights', f.loc())
-    f = db.func('prysm.polynomials.sum_of_2d_modes_backprop')
-    calls = [n for n in walk_no_nested(f.node) if isinstance(n, ast.Call) and ast.unparse(n.func).endswith('tensordot')]
-    ok = len(calls) == 1 and [ast.unparse(a) for a in calls[0].args[:2]] == ['modes', 'databar']
-    if ok:
-        axes = [k.value for k in calls[0].keywords if k.arg == 'axes'] + calls[0].args[2:3]
-        ok = not axes or ast.unparse(axes[0]).replace(' ', '') in ('2', '((1,2),(0,1))', '([1,2],[0,1])')
-    run.check(ok, 'C06.sum', f.qual, 'contraction', 'companion contracts the two spatial axes of modes with databar', 'sum_of_2d_modes_backprop does not contract the spatial axes', f.loc())
+def sum_rules(run, db, rule='C06.sum'):
+    """sum_of_2d_modes contracts the mode axis, its companion the two spatial axes -- decided on shapes with pairwise
+    distinct symbolic dimensions (K modes of shape (r, c)), whatever call spells the contraction."""
+    from ..domains.shape import ShapeDomain, Sh, Scalar
+    from ..core.interp import Interp
+    for qual, kw, want_dims, want_pairs, claim in (
+            ('prysm.polynomials.sum_of_2d_modes', lambda: {'modes': Sh(('K', 'r', 'c')), 'weights': Sh(('K',))}, ('r', 'c'), [{('K', 'K')}],
+             'forward contracts the mode axis of modes with weights'),
+            ('prysm.polynomials.sum_of_2d_modes_backprop', lambda: {'modes': Sh(('K', 'r', 'c')), 'databar': Sh(('r', 'c'))}, ('K',), [{('r', 'r'), ('c', 'c')}, {('r*c', 'r*c')}],
+             'companion contracts the two spatial axes of modes with databar')):
+        f = db.func(qual)
+        dom = ShapeDomain()
+        it = Interp(db, dom)
+        res = [p for p in it.run(f, kwargs=kw) if p.outcome == 'return']
+        if not res:
+            raise AnalysisError('%s: no returning path' % qual)
+        for p in res:
+            v = p.value
+            if not isinstance(v, (Sh, Scalar)):
+                raise AnalysisError('%s: result shape unknown: %r' % (qual, v))
+            pairs = set()
+            for e in p.events:
+                if e['kind'] == 'tensordot':
+                    pairs |= set(e['pairs'])
+            bad_layout = [e for e in p.events if e['kind'] == 'layout-order']
+            mism = [e for e in p.events if e['kind'] in ('contract-mismatch', 'reshape-reorders', 'broadcast-error')]
+            ok = isinstance(v, Sh) and v.dims == want_dims and pairs in want_pairs and not bad_layout and not mism
+            run.check(ok, rule, f.qual, 'contraction', claim,
+                      '%s returns shape %r after contracting %s%s: %s' % (f.name, getattr(v, 'dims', ()), sorted(pairs),
+                                                                          ' with a memory-order flatten (%s), which pairs the samples wrongly for arrays that are not C-ordered' % bad_layout[0]['what'] if bad_layout else '',
+                                                                          'it does not ' + claim.split(' ', 1)[1]), f.loc())
 
 
 def _slice_bounds(dom, s, n):
